@@ -522,7 +522,7 @@ class PopenWorld(World):
         import time as _t
         t0 = _t.time()
         while not cond():
-            if _t.time() - t0 > 10:
+            if _t.time() - t0 > 60:
                 raise RuntimeError('reader thread did not pick up the peer action')
             _t.sleep(0.0005)
 
@@ -638,14 +638,14 @@ class GatedPopenWorld(World):
 
     def thread_step(self):
         self.permit.release()
-        if not self.done.acquire(timeout=10):
+        if not self.done.acquire(timeout=60):
             raise RuntimeError('reader thread did not complete its step')
 
     def _spin(self, cond):
         import time as _t
         t0 = _t.time()
         while not cond():
-            if _t.time() - t0 > 10:
+            if _t.time() - t0 > 60:
                 raise RuntimeError('peer action did not take effect')
             _t.sleep(0.0005)
 
